@@ -15,6 +15,11 @@
 //	commit | rollback                                                            -> ok | err:.. | noapp
 //	q <series>            -> io=<t:K:v,..|-> all=<t:K:v|t:*,..|->   (all: `*` where the timestamp is also in io)
 //	win                   -> uninit | <minValid> <headMaxt>
+//
+// Overlapping appenders: the ops app / opt / f / h / fh / commit / rollback may carry the prefix `@1` or `@2`
+// (`@1 app v2`, `@1 f s0 1000 <bits>`, `@1 commit`); they then address appender slot 1 / 2 instead of
+// slot 0, so up to three appenders are open on the same head at once (strictly interleaved, one goroutine).
+// Any other op behind a prefix -> bad-op.  `trunc` answers skip while any slot is open.
 package main
 
 import (
@@ -97,23 +102,44 @@ func errClass(err error) string {
 	}
 }
 
+// slot is one appender handle (v1 or v2) together with the v2 per-append option.
+type slot struct {
+	ver  string
+	app1 storage.Appender
+	app2 storage.AppenderV2
+	rej  bool
+}
+
+func (s *slot) open() bool { return s.app1 != nil || s.app2 != nil }
+
+const nSlots = 3
+
 type env struct {
 	dir   string
 	db    *tsdb.DB
-	ver   string
-	app1  storage.Appender
-	app2  storage.AppenderV2
-	rej   bool
+	slots [nSlots]slot
+	*slot // the slot the current op addresses
 	ctx   context.Context
 	cfgOK bool
 }
 
-func (e *env) close() {
-	if e.app1 != nil {
-		_ = e.app1.Rollback()
+func (e *env) anyOpen() bool {
+	for i := range e.slots {
+		if e.slots[i].open() {
+			return true
+		}
 	}
-	if e.app2 != nil {
-		_ = e.app2.Rollback()
+	return false
+}
+
+func (e *env) close() {
+	for i := range e.slots {
+		if e.slots[i].app1 != nil {
+			_ = e.slots[i].app1.Rollback()
+		}
+		if e.slots[i].app2 != nil {
+			_ = e.slots[i].app2.Rollback()
+		}
 	}
 	if e.db != nil {
 		_ = e.db.Close()
@@ -202,6 +228,20 @@ func (e *env) step(c *h.Ctx, op string) string {
 	if len(f) == 0 {
 		return "bad-op"
 	}
+	e.slot = &e.slots[0]
+	if f[0] == "@1" || f[0] == "@2" {
+		e.slot = &e.slots[int(f[0][1]-'0')]
+		f = f[1:]
+		if len(f) == 0 {
+			return "bad-op"
+		}
+		switch f[0] {
+		case "app", "opt", "f", "h", "fh", "commit", "rollback":
+		default:
+			return "bad-op"
+		}
+		c.Count("slot:" + f[0])
+	}
 	if f[0] == "cfg" {
 		if e.cfgOK || len(f) != 4 {
 			return "bad-op"
@@ -241,7 +281,7 @@ func (e *env) step(c *h.Ctx, op string) string {
 			return "bad-op"
 		}
 		m, _ := strconv.ParseInt(f[1], 10, 64)
-		if head.MinTime() != math.MaxInt64 || e.app1 != nil || e.app2 != nil {
+		if head.MinTime() != math.MaxInt64 || e.anyOpen() {
 			return "skip"
 		}
 		if err := head.Truncate(m); err != nil {
@@ -258,7 +298,7 @@ func (e *env) step(c *h.Ctx, op string) string {
 		if len(f) != 2 || (f[1] != "v1" && f[1] != "v2") {
 			return "bad-op"
 		}
-		if e.app1 != nil || e.app2 != nil {
+		if e.open() {
 			return "busy"
 		}
 		e.ver = f[1]
@@ -576,6 +616,311 @@ func randCase(c *h.Ctx, r *h.Rng, i int) {
 	runCase(c, ops)
 }
 
+// ---------------------------------------------------------------- overlapping appenders
+
+func pfx(slot int, op string) string {
+	if slot == 0 {
+		return op
+	}
+	return fmt.Sprintf("@%d %s", slot, op)
+}
+
+// Stream 3 (directed): appender X (slot 0) is overtaken by appender Y (slot 1).
+//
+// Set-up: every cell series holds <kind>:1 at t=1000 (= head max time); chunkRange/2 = 50.
+// X is created (snapshot minValid 950, headMaxt 1000), appends the phase-A cells, then Y is created, writes
+// t=1000+d to `aux` (other series) or to every cell series (the series' newest in-order sample moves as
+// well) and commits (or rolls back); X appends the phase-B cells and commits.  d is smaller than the OOO
+// window, between the OOO window and chunkRange/2, or larger than both.  Cell timestamps sit at -1/0/+1 of:
+// X's OOO bound, the live OOO bound, X's minValid, the live minValid, the series' old and new maxT.
+func overlapDirected(c *h.Ctx) {
+	const base = int64(1000)
+	const half = int64(50)
+	vals := map[string][2]string{"f": {bitsOne, bitsTwo}, "h": {"1", "2"}, "fh": {"1", "2"}}
+	id, combo := 0, 0
+	for _, kind := range []string{"f", "h", "fh"} {
+		for _, verX := range []string{"v1", "v2"} {
+			for _, verY := range []string{"v1", "v2"} {
+				for _, w := range []int64{30, 0} {
+					for _, d := range []int64{10, 45, 200} {
+						combo++
+						for mi, mode := range []string{"other", "same", "other-rollback", "same-third"} {
+							id++
+							if c.Tier != "thorough" && mode != "other" && (combo+mi+int(c.Seed))%2 != 0 {
+								// quick tier: every "other series" case, a seed-dependent half of the rest
+								continue
+							}
+							prev := smp{kind, vals[kind][0]}
+							in := smp{kind, vals[kind][1]}
+							tset := map[int64]bool{}
+							for _, b := range []int64{base - w, base + d - w, base - half, base + d - half, base, base + d} {
+								for dd := int64(-1); dd <= 1; dd++ {
+									tset[b+dd] = true
+								}
+							}
+							var ts []int64
+							for t := base - 2*half; t <= base+d+2; t++ {
+								if tset[t] {
+									ts = append(ts, t)
+								}
+							}
+							type cell struct {
+								s     string
+								t     int64
+								in    smp
+								after bool
+							}
+							var cells []cell
+							n := 0
+							for _, after := range []bool{false, true} {
+								for _, t := range ts {
+									cells = append(cells, cell{fmt.Sprintf("c%d", n), t, in, after})
+									n++
+									if t == base || t == base+d {
+										// the value the series' newest sample has / will have: no-op instead of duplicate
+										cells = append(cells, cell{fmt.Sprintf("c%d", n), t, prev, after})
+										n++
+									}
+								}
+							}
+							ops := []string{fmt.Sprintf("cfg %d %d 30", w, 2*half), "app v1"}
+							for _, cl := range cells {
+								ops = append(ops, prev.op(cl.s, base))
+							}
+							ops = append(ops, "commit", "win", "app "+verX)
+							for _, cl := range cells {
+								if !cl.after {
+									ops = append(ops, cl.in.op(cl.s, cl.t))
+								}
+							}
+							ops = append(ops, "@1 app "+verY)
+							switch mode {
+							case "other", "other-rollback":
+								ops = append(ops, "@1 "+prev.op("aux", base+d))
+							default:
+								for _, cl := range cells {
+									ops = append(ops, "@1 "+prev.op(cl.s, base+d))
+								}
+							}
+							if mode == "other-rollback" {
+								ops = append(ops, "@1 rollback", "win")
+							} else {
+								ops = append(ops, "@1 commit", "win")
+							}
+							if mode == "same-third" {
+								// a third appender, created after Y's commit, moves the head once more and stays open
+								// across X's commit
+								ops = append(ops, "@2 app "+verX, "@2 "+prev.op("aux", base+2*d+100))
+							}
+							for _, cl := range cells {
+								if cl.after {
+									ops = append(ops, cl.in.op(cl.s, cl.t))
+								}
+							}
+							ops = append(ops, "commit", "win")
+							for _, cl := range cells {
+								ops = append(ops, "q "+cl.s)
+							}
+							if mode == "same-third" {
+								ops = append(ops, "@2 commit", "win", "q aux")
+							}
+							c.Case(fmt.Sprintf("ovd%d", id))
+							c.NonTrivial(strings.Join(ops, ";"))
+							c.Count("stream:overlap-directed")
+							c.Count("overlap-directed:" + mode)
+							runCase(c, ops)
+						}
+					}
+				}
+			}
+		}
+	}
+	// the literal scenario of seeded/C02-a (OOO window 10 min) and lazily created appenders
+	for _, kind := range []string{"f", "h", "fh"} {
+		v := vals[kind]
+		for _, ver := range []string{"v1", "v2"} {
+			id++
+			ops := []string{
+				"cfg 600000 7200000 30", "app " + ver, fmt.Sprintf("%s a 1000000 %s", kind, v[0]), "commit",
+				"app " + ver, "@1 app " + ver, fmt.Sprintf("@1 %s b 2000000 %s", kind, v[0]), "@1 commit", "win",
+				fmt.Sprintf("%s a 900000 %s", kind, v[1]), "commit", "q a", "q b", "win",
+			}
+			c.Case(fmt.Sprintf("ovd%d", id))
+			c.NonTrivial(strings.Join(ops, ";"))
+			c.Count("stream:overlap-directed")
+			runCase(c, ops)
+			for _, first := range []string{"x", "y", "y-commit", "y-rollback"} {
+				id++
+				// both appenders are handed out by an uninitialised head: the snapshot is taken at the first append
+				ops := []string{"cfg 30 100 30", "app " + ver, "@1 app " + ver}
+				xs := []string{
+					fmt.Sprintf("%s a0 1990 %s", kind, v[1]), fmt.Sprintf("%s a1 1950 %s", kind, v[1]),
+					fmt.Sprintf("%s a2 1949 %s", kind, v[1]), fmt.Sprintf("%s a3 1920 %s", kind, v[1]),
+					fmt.Sprintf("%s a4 1919 %s", kind, v[1]), fmt.Sprintf("%s b 1995 %s", kind, v[1]),
+					fmt.Sprintf("%s b 2045 %s", kind, v[1]),
+				}
+				ys := []string{fmt.Sprintf("@1 %s b 2000 %s", kind, v[0]), fmt.Sprintf("@1 %s b 2050 %s", kind, v[0])}
+				switch first {
+				case "x":
+					ops = append(ops, xs[0], "win")
+					ops = append(ops, ys...)
+					ops = append(ops, "@1 commit", "win")
+					ops = append(ops, xs[1:]...)
+				case "y":
+					ops = append(ops, ys[0], "win")
+					ops = append(ops, xs...)
+					ops = append(ops, ys[1], "@1 commit", "win")
+				case "y-commit":
+					ops = append(ops, ys...)
+					ops = append(ops, "@1 commit", "win")
+					ops = append(ops, xs...)
+				default:
+					ops = append(ops, ys...)
+					ops = append(ops, "@1 rollback", "win")
+					ops = append(ops, xs...)
+				}
+				ops = append(ops, "commit", "win", "q a0", "q a1", "q a2", "q a3", "q a4", "q b")
+				c.Case(fmt.Sprintf("ovd%d", id))
+				c.NonTrivial(strings.Join(ops, ";"))
+				c.Count("stream:overlap-directed")
+				c.Count("overlap-directed:lazy-" + first)
+				runCase(c, ops)
+			}
+		}
+	}
+}
+
+// Stream 4 (random): up to three appenders open at once; every step opens a slot, appends to a series,
+// changes the option, or commits / rolls back a slot — so appends and commits of one appender are separated
+// by commits of the others, to the same and to other series.
+func randOverlapCase(c *h.Ctx, r *h.Rng, i int) {
+	floatPool := []string{bitsOne, bitsOne, bitsTwo, "0000000000000000", staleHex, "7ff8000000000001"}
+	half := h.Pick(r, []int64{5, 10, 10, 50, 1000000})
+	w := h.Pick(r, []int64{0, 0, 3, 8, 12, 30, 100})
+	ops := []string{fmt.Sprintf("cfg %d %d 30", w, 2*half)}
+	base := int64(1000)
+	if r.Chance(15) {
+		ops = append(ops, fmt.Sprintf("trunc %d", base+r.Range(-8, 8)))
+	}
+	nser := 1 + r.Intn(3)
+	nslot := 2 + r.Intn(2)
+	front := base
+	sticky := make([]string, nser)
+	for k := range sticky {
+		sticky[k] = h.Pick(r, []string{"f", "f", "h", "fh"})
+	}
+	if r.Chance(70) {
+		// an initialised head to start with (otherwise the first appenders are lazy)
+		ops = append(ops, "app v2")
+		for k := 0; k < nser; k++ {
+			val := "1"
+			if sticky[k] == "f" {
+				val = bitsOne
+			}
+			ops = append(ops, fmt.Sprintf("%s s%d %d %s", sticky[k], k, base-r.Range(0, 3), val))
+		}
+		ops = append(ops, "commit")
+	}
+	open := make([]bool, nslot)
+	queryAll := func() {
+		for k := 0; k < nser; k++ {
+			ops = append(ops, fmt.Sprintf("q s%d", k))
+		}
+		if r.Chance(40) {
+			ops = append(ops, "win")
+		}
+	}
+	steps := 6 + r.Intn(28)
+	maxOpen := 0
+	for st := 0; st < steps; st++ {
+		sl := r.Intn(nslot)
+		if !open[sl] {
+			ver := "v1"
+			if r.Bool() {
+				ver = "v2"
+			}
+			ops = append(ops, pfx(sl, "app "+ver))
+			if r.Chance(15) {
+				ops = append(ops, pfx(sl, "opt 1"))
+			}
+			open[sl] = true
+			no := 0
+			for _, o := range open {
+				if o {
+					no++
+				}
+			}
+			if no > maxOpen {
+				maxOpen = no
+			}
+			continue
+		}
+		switch x := r.Intn(100); {
+		case x < 68:
+			si := r.Intn(nser)
+			var t int64
+			switch y := r.Intn(100); {
+			case y < 40:
+				t = front + r.Range(0, 3)
+			case y < 70:
+				t = front - r.Range(0, 6)
+			case y < 85:
+				t = front - r.Range(0, 2*half+4)
+			default:
+				t = front - w + r.Range(-3, 3)
+			}
+			kind := sticky[si]
+			if r.Chance(20) {
+				kind = h.Pick(r, []string{"f", "h", "fh"})
+				if r.Chance(50) {
+					sticky[si] = kind
+				}
+			}
+			var val string
+			if kind == "f" {
+				val = h.Pick(r, floatPool)
+			} else {
+				val = h.Pick(r, []string{"0", "1", "1", "2", "3", "4", "5"})
+			}
+			ops = append(ops, pfx(sl, fmt.Sprintf("%s s%d %d %s", kind, si, t, val)))
+			if t > front && r.Chance(75) {
+				front = t
+				if r.Chance(25) {
+					front += r.Range(1, w+half/2+2) // let the head run ahead of the open appenders' snapshots
+					if front > base+100000 {
+						front = base + 100000
+					}
+				}
+			}
+		case x < 73:
+			ops = append(ops, pfx(sl, fmt.Sprintf("opt %d", r.Intn(2))))
+		case x < 93:
+			ops = append(ops, pfx(sl, "commit"))
+			open[sl] = false
+			queryAll()
+		default:
+			ops = append(ops, pfx(sl, "rollback"))
+			open[sl] = false
+			queryAll()
+		}
+	}
+	for sl := range open {
+		if open[sl] {
+			if r.Chance(85) {
+				ops = append(ops, pfx(sl, "commit"))
+			} else {
+				ops = append(ops, pfx(sl, "rollback"))
+			}
+			queryAll()
+		}
+	}
+	c.Case(fmt.Sprintf("ov%d", i))
+	c.NonTrivial(strings.Join(ops, ";"))
+	c.Count("stream:overlap-random")
+	c.Count(fmt.Sprintf("overlap:max-open=%d", maxOpen))
+	runCase(c, ops)
+}
+
 func main() {
 	c := h.Init()
 	defer c.Finish()
@@ -586,8 +931,16 @@ func main() {
 		}
 		return
 	}
+	overlapDirected(c) // deterministic, draws nothing from the PRNG: the streams below are unchanged
 	tableCases(c)
 	for i := 0; i < c.N; i++ {
 		randCase(c, c.Rng, i)
+	}
+	nov := c.N
+	if c.Tier == "thorough" {
+		nov = c.N / 4 // keeps the thorough tier inside its time budget
+	}
+	for i := 0; i < nov; i++ {
+		randOverlapCase(c, c.Rng, i)
 	}
 }
